@@ -49,6 +49,16 @@ def keyword_named_block(rnd):
     return '\n'.join(lines) + '\n'
 
 
+def deep_use_block(rnd):
+    """An argument and a local whose only use sits hundreds of levels deep in one expression (a long left-deep chain, nested groups)."""
+    n = rnd.choice([150, 230, 260, 300])
+    k = rnd.randint(0, 99)
+    chain = ' + '.join(['first'] + ['1'] * n)
+    groups = '(' * (n // 2) + 'start' + ')' * (n // 2)
+    return '\n'.join(['function deepUse%d(start):' % k, '    first = 2', '    total = ' + chain, '    return total + ' + groups, 'endfunction',
+                      'systemLog(deepUse%d(5))' % k]) + '\n'
+
+
 def scopes(model):
     yield ('global', None, model['statements'])
     for s in model['statements']:
@@ -370,6 +380,8 @@ def run_shard(ctx, spec):
             text = sloppy_source(rnd, src)
             if rnd.random() < 0.2:
                 text = keyword_named_block(rnd) + text
+            if rnd.random() < 0.04:
+                text = deep_use_block(rnd) + text
             globals0 = {k: v for k, v in globals0.items() if not callable(v)}
             model = impl.parse_valid(text, {'kind': 'source', 'source': text})
             try:
